@@ -154,5 +154,21 @@ case("index-keeps-empty", "C18", R, "if index_key and all(index_key):", "if inde
 case("merge-mutates-left", "C18", R, "            merged[key] = merge_dicts(left_value, right_value)", "            left_value.update(right_value)\n            merged[key] = left_value", V, "R18")
 case("v2-primary-default", "C18", R, 'entry.setdefault("primary", False)', 'entry.setdefault("primary", True)', V, "R18-get")
 
+# ---- round 5 rules -------------------------------------------------------------------------------------------
+case("raw-length-guard", "C10,C01,C04", C, "        return super().__new__(cls, clean(value))",
+     "        if len(value) > 64:\n            raise ValueError(\"too long\")\n        return super().__new__(cls, clean(value))", V, "norm")
+case("clean-length-guard-benign", "C10,C01", C, "        return super().__new__(cls, clean(value))",
+     "        value = clean(value)\n        return super().__new__(cls, value)", S)
+case("format-cache-country-blind", "C01,C02,C03", I, "    def _validate_format(self) -> None:", "    @functools.lru_cache(maxsize=None)\n    def _validate_format(self) -> None:", V, "stateless",
+     more=[{"file": I, "old": "from __future__ import annotations\n", "new": "from __future__ import annotations\n\nimport functools\n"}])
+case("national-cache-country-blind", "C06,C05,C09", B, "    def validate_national_checksum(self) -> bool:", "    @functools.lru_cache(maxsize=None)\n    def validate_national_checksum(self) -> bool:", V, "stateless",
+     more=[{"file": B, "old": "from dataclasses import dataclass\n", "new": "import functools\nfrom dataclasses import dataclass\n"}])
+case("national-cache-not-c01", "C01,C02,C03,C04", B, "    def validate_national_checksum(self) -> bool:", "    @functools.lru_cache(maxsize=None)\n    def validate_national_checksum(self) -> bool:", S,
+     more=[{"file": B, "old": "from dataclasses import dataclass\n", "new": "import functools\nfrom dataclasses import dataclass\n"}])
+case("from-bban-table-digits", "C02", I, "        checksum_algo = ISO7064_mod97_10()\n        return cls(",
+     '        checksum_algo = ISO7064_mod97_10()\n        if country_code == "PT":\n            return cls("PT50" + bban, allow_invalid=allow_invalid, validate_bban=validate_bban)\n        return cls(', V, "R02-agree")
+case("cz-accepts-undefined", "C17", "schwifty/checksum/czech_republic.py", "        Component.BRANCH_CODE,\n        Component.ACCOUNT_CODE,", "        Component.ACCOUNT_TYPE,\n        Component.ACCOUNT_CODE,", V, "R17-algo")
+case("nochecksum-returns-zero", "C09", B, "    if algo is None:\n        return \"\"", "    if algo is None:\n        return \"0\"", V, "R09-converse")
+
 json.dump({"cases": CASES}, open(os.path.join(HERE, "corpus.json"), "w"), indent=1)
 print(len(CASES), "cases")
